@@ -233,4 +233,89 @@ theorem splitKeepGo_count (cur s : LStr) (hcur : '\n' ∉ cur) (i : Nat) (hi : i
 theorem uniLines_count (s : LStr) (i : Nat) (hi : i < (uniLines s).length) : ((uniLines s).take i).flatten.count '\n' = i :=
   splitKeepGo_count [] (translate s) (by simp) i hi
 
+/-! ## compositionality: a text is split chunk by chunk at its line ends -/
+
+theorem translateGo_append_nl (b0 : Bool) (a b : LStr) :
+    translateGo b0 (a ++ '\n' :: b) = translateGo b0 (a ++ ['\n']) ++ translateGo false b := by
+  induction a generalizing b0 with
+  | nil => cases b0 <;> simp [translateGo]
+  | cons c r ih =>
+    simp only [List.cons_append, translateGo]
+    by_cases hn : c = '\n'
+    · cases b0 <;> simp [hn, ih]
+    · by_cases hc : c = '\r'
+      · simp [hn, hc, ih]
+      · simp [hn, hc, ih]
+
+theorem translateGo_nl_end (b0 : Bool) (a : LStr) :
+    translateGo b0 (a ++ ['\n']) = [] ∨ ∃ x, translateGo b0 (a ++ ['\n']) = x ++ ['\n'] := by
+  induction a generalizing b0 with
+  | nil => cases b0 <;> simp [translateGo]
+  | cons c r ih =>
+    simp only [List.cons_append, translateGo]
+    by_cases hn : c = '\n'
+    · cases b0
+      · simp only [hn, if_true, Bool.false_eq_true, if_false]
+        rcases ih false with h | ⟨x, h⟩
+        · exact .inr ⟨[], by simp [h]⟩
+        · exact .inr ⟨'\n' :: x, by simp [h]⟩
+      · simp only [hn, if_true]
+        exact ih false
+    · by_cases hc : c = '\r'
+      · rw [if_neg hn, if_pos hc]
+        rcases ih true with h | ⟨x, h⟩
+        · exact .inr ⟨[], by simp [h]⟩
+        · exact .inr ⟨'\n' :: x, by simp [h]⟩
+      · rw [if_neg hn, if_neg hc]
+        rcases ih false with h | ⟨x, h⟩
+        · right; refine ⟨[], ?_⟩
+          exfalso
+          -- translateGo false never returns [] on a non-empty input
+          have hne : translateGo false (r ++ ['\n']) ≠ [] := by
+            cases r with
+            | nil => simp [translateGo]
+            | cons d t =>
+              simp only [List.cons_append, translateGo]
+              by_cases h1 : d = '\n'
+              · simp [h1]
+              · by_cases h2 : d = '\r'
+                · simp [h1, h2]
+                · simp [h1, h2]
+          exact hne h
+        · exact .inr ⟨c :: x, by simp [h]⟩
+
+theorem splitKeepGo_append_nl (cur x y : LStr) :
+    splitKeepGo cur (x ++ '\n' :: y) = splitKeepGo cur (x ++ ['\n']) ++ splitKeepGo [] y := by
+  induction x generalizing cur with
+  | nil => simp [splitKeepGo]
+  | cons c r ih =>
+    simp only [List.cons_append, splitKeepGo]
+    by_cases hn : c = '\n'
+    · simp [hn, ih]
+    · simp [hn, ih]
+
+/-- **the lines of a text are the lines of its line-terminated prefix followed by the lines of the rest** -/
+theorem uniLines_append_nl (a b : LStr) : uniLines (a ++ '\n' :: b) = uniLines (a ++ ['\n']) ++ uniLines b := by
+  unfold uniLines translate splitKeep
+  rw [translateGo_append_nl]
+  rcases translateGo_nl_end false a with h | ⟨x, h⟩
+  · rw [h]; simp [splitKeepGo]
+  · rw [h]
+    have := splitKeepGo_append_nl [] x (translateGo false b)
+    simpa using this
+
+/-- inserting an empty line after a line end adds exactly one line `"\n"` there and moves nothing else -/
+theorem uniLines_insert_blank (a b : LStr) :
+    uniLines ((a ++ ['\n']) ++ '\n' :: b) = uniLines (a ++ ['\n']) ++ [['\n']] ++ uniLines b ∧
+    uniLines ((a ++ ['\n']) ++ b) = uniLines (a ++ ['\n']) ++ uniLines b := by
+  constructor
+  · have h1 := uniLines_append_nl a ('\n' :: b)
+    have h2 := uniLines_append_nl [] b
+    simp only [List.append_assoc, List.cons_append, List.nil_append] at h1 h2 ⊢
+    rw [h1, h2]
+    have : uniLines ['\n'] = [['\n']] := by decide
+    rw [this]; simp
+  · have h1 := uniLines_append_nl a b
+    simpa using h1
+
 end Bandit
